@@ -33,7 +33,7 @@ MIN_MONITOR = {"mon.traced": 300, "mon.value": 600, "mon.inlined": 300, "mon.inv
                "mon.keyword_calls": 80, "mon.nested": 40, "mon.repeated": 40,
                "mon.call_in_argument": 40}
 SHARD_TIMEOUT = {"quick": 900, "thorough": 7200}
-N_PROGRAMS = {"quick": 480, "thorough": 10000}
+N_PROGRAMS = {"quick": 1440, "thorough": 12000}
 PROFILES = ["mixed", "elementwise", "reduce", "index", "einsum", "zero"]
 OPTS = {"no_loopy": True, "dw_prob": 0.15}
 
